@@ -138,6 +138,30 @@ def run_case(ctx, case):
         elif which == "bits-struct":
             d = C.BitsSwapped(C.Struct("a" / C.Bytes(1), "b" / C.GreedyBytes))
             want = ref_bitrev(data)
+        elif which == "bits-positional":
+            # streamed inner formats whose layout depends on the position inside the translated stream (alignment and padding are
+            # computed from stream.tell()): the output is still the bit reversal of what the inner format builds on its own
+            nn = min(n, 5)
+            inner = C.Struct("n" / C.Byte, "d" / C.Aligned(4, C.Bytes(C.this.n)), "p" / C.Padded(3, C.Bytes(1)), "t" / C.GreedyBytes)
+            v = dict(n=nn, d=data[:nn], p=b"\x81", t=data[nn:])
+            plain = bytes([nn]) + data[:nn] + bytes(-nn % 4) + b"\x81\x00\x00" + data[nn:]
+            ctx.count("swap_positional")
+            if outcome(lambda: inner.build(v)) != ("ok", plain):
+                ctx.count("positional_inner_reference_mismatch")
+                return
+            d = C.BitsSwapped(inner)
+            if outcome(lambda: d.build(v)) != ("ok", ref_bitrev(plain)):
+                bad("bitsswapped-positional-build", "BitsSwapped(Struct(n, Aligned(4, Bytes(n)), Padded(3, ..), GreedyBytes)).build -> %r, expected the bit reversal of %s" % (outcome(lambda: d.build(v)), plain.hex()))
+            r = outcome(lambda: d.parse(ref_bitrev(plain)))
+            if r[0] != "ok" or r[1].n != nn or r[1].d != data[:nn] or r[1].t != data[nn:]:
+                bad("bitsswapped-positional-parse", "parse of the bit-reversed encoding -> %r" % (r,))
+            d2 = C.BitsSwapped(C.Aligned(4, C.GreedyBytes))
+            if outcome(lambda: d2.build(data)) != ("ok", ref_bitrev(data + bytes(-n % 4))):
+                bad("bitsswapped-positional-build", "BitsSwapped(Aligned(4, GreedyBytes)).build(%d bytes) -> %r" % (n, outcome(lambda: d2.build(data))))
+            d3 = C.ByteSwapped(C.Struct("a" / C.Aligned(4, C.Bytes(1)), "b" / C.Padded(3, C.Byte))) if n >= 2 else None
+            if d3 is not None and outcome(lambda: d3.build(dict(a=data[:1], b=data[1]))) != ("ok", (data[:1] + bytes(3) + data[1:2] + bytes(2))[::-1]):
+                bad("byteswapped-positional-build", "ByteSwapped(Struct(Aligned, Padded)).build -> %r" % (outcome(lambda: d3.build(dict(a=data[:1], b=data[1]))),))
+            return
         elif which == "bits-probe":
             # streamed: a repeated two-byte field that runs out of data part-way, then a read-to-end field - nothing may be lost
             d = C.BitsSwapped(C.Struct("xs" / C.GreedyRange(C.Int16ub), "rest" / C.GreedyBytes))
@@ -241,7 +265,7 @@ def run(ctx):
             cases.append(("rot", {"amount": amount, "group": group, "via": "const" if amount % 2 == 0 else "ctx"}, "g%d" % group))
     # --- swaps
     for n in range(1, 17):
-        for which in ("bytes-sized", "bytes-int", "bits-sized", "bits-unsized", "bits-struct", "bits-probe"):
+        for which in ("bytes-sized", "bytes-int", "bits-sized", "bits-unsized", "bits-struct", "bits-probe", "bits-positional"):
             cases.append(("swap", {"which": which, "n": n}, which))
     # --- codecs
     for enc in ("zlib", "gzip", "bzip2", "lzma"):
